@@ -278,13 +278,19 @@ func genMsgs(t *rapid.T, hid string, post bool, frame bool, n int) []C07Msg {
 
 func genC07(t *rapid.T) C07Scn {
 	s := C07Scn{Transport: rapid.SampledFrom([]string{"mem", "mem", "frame", "tcp", "udp", "ws"}).Draw(t, "transport"),
-		Handshake: rapid.SampledFrom([]string{"valid", "valid", "valid", "valid", "none"}).Draw(t, "handshake")}
+		Handshake: rapid.SampledFrom([]string{"valid", "valid", "valid", "valid", "valid", "none", "as-w"}).Draw(t, "handshake")}
 	if s.Transport == "frame" {
 		s.Chunks = rapid.SliceOfN(rapid.SampledFrom([]int{1, 1, 2, 3, 7, 36, 37, 100, 4096, 65536}), 1, 5).Draw(t, "chunks")
 	}
 	hid := c07H
 	if s.Handshake == "as-w2" {
 		hid = c07W2
+	}
+	if s.Handshake == "as-w" {
+		// an impostor: its first routing update announces the ID of the well-behaved peer that is connected already; the node
+		// refuses the session, whatever follows goes into a closed session
+		s.Post = genMsgs(t, hid, true, s.Transport == "frame" || s.Transport == "tcp" || s.Transport == "ws", rapid.IntRange(1, 3).Draw(t, "npost-imp"))
+		return s
 	}
 	s.Pre = genMsgs(t, hid, false, s.Transport == "frame" || s.Transport == "tcp" || s.Transport == "ws", rapid.IntRange(0, 3).Draw(t, "npre"))
 	s.Post = genMsgs(t, hid, true, s.Transport == "frame" || s.Transport == "tcp" || s.Transport == "ws", rapid.IntRange(1, 8).Draw(t, "npost"))
@@ -293,10 +299,10 @@ func genC07(t *rapid.T) C07Scn {
 
 func TestC07(t *testing.T) {
 	st := vx.NewStats("C07", "peer", "a real node with one well-behaved real peer and a hostile scripted peer on an in-memory datagram link, on receptor's stream framing over a chunking byte stream, or on the real TCP / UDP / websocket listeners of pkg/backends on loopback; "+
-		"0-3 messages before and 1-8 after an optional correct handshake, drawn from a grammar: routing updates / advertisements with 0-2 fields removed, duplicated, case-changed or replaced by JSON of "+
+		"0-3 messages before and 1-8 after an optional correct handshake (or, one scenario in seven, a handshake that announces the ID of the connected well-behaved peer), drawn from a grammar: routing updates / advertisements with 0-2 fields removed, duplicated, case-changed or replaced by JSON of "+
 		"every shape, absurd connection maps (non-positive, extreme, thousands, cycles of non-positive cost among phantom nodes, claims about good nodes), wrong top-level shapes, bad JSON, data packets "+
 		"with every header combination / truncation / oversize, reject, unknown types, empty datagram, lying or zero-length stream frames; oracle after the hostile session ended: process alive, Status() "+
-		"answers in 5 s, the old peer pings the node, a fresh peer becomes routable and both peers ping each other through the node; non-trivial = handshake completed and >= 1 malformed message after it")
+		"answers in 5 s, the old peer pings the node, a fresh peer becomes routable and both peers ping each other through the node; non-trivial = handshake completed and >= 1 malformed message after it, or an impostor handshake")
 	defer st.Flush()
 	r := &vx.Runner{Name: "C07", Timeout: 240 * time.Second, Recycle: 60}
 	defer r.Close()
